@@ -668,6 +668,7 @@ func verifRoundTripSymmetricSecurityHeader(h *SymmetricSecurityHeader) {
 //@   split c.algo.blockSize == 16 && c.algo.signatureLength == 32
 //@   split c.algo.blockSize == 1
 //@   assigns m.MessageHeader.Header.MessageSize, elems(b), c.algo.signature, c.algo.encrypt
+//@   canary ensures [C08:canary-never-grows] err == nil ==> len(result0) == len(b)
 //@   loop 0 invariant 0 <= i && i <= paddingLength + 1 && len(b) == len(old(b)) + i
 //@   loop 0 invariant 0 <= paddingLength && paddingLength < 16 && 24 <= len(old(b)) && off(b) == off(old(b))
 //@   loop 0 invariant arr(b) == arr(old(b)) || fresh(b)
